@@ -240,6 +240,9 @@ func (env *e2eEnv) runSession(sc *e2eScenario, target uint64, faults bool, watch
 					res.ancestor = m.Ancestor
 				}
 				logf("finder result %v", m.Ancestor != nil)
+				if faults {
+					syncer.VerifC17SetFetchTimeout(env.cfg, timeout)
+				}
 				sy.Receive(actorCtx{m: m})
 			case *message.SyncStop:
 				logf("stop from %s: %v", m.FromWho, m.Err)
@@ -462,7 +465,11 @@ func runE2E(run *vh.Run, sc *e2eScenario, idx int) (steps int) {
 	env := &e2eEnv{p: &pump{wake: make(chan struct{}, 1)}, local: &liveChain{}, remote: remote, alt: alt}
 	env.local.set(local)
 	env.req = &e2eReq{p: env.p, local: env.local, npeers: sc.npeers}
-	ft := 40 * time.Millisecond
+	// The finder waits for each answer on an unbuffered channel and the service hands a late answer over
+	// with a blocking send (notes/C17.md): a reply that arrives after the finder gave up would block the
+	// single service thread for ever. Keep the finder's timeout far above any scheduling hiccup and shorten
+	// it for the block tasks once the ancestor is known. (With finderDrop nothing is ever answered.)
+	ft := 5 * time.Second
 	if sc.finderDrop {
 		ft = 60 * time.Millisecond
 	}
